@@ -35,7 +35,7 @@ enum {
 	N_NBR_CANCEL_INFLIGHT, N_NBW_WRITE, N_NBW_BYTES, N_NBW_FAILCB, N_NBW_QUEUED_BEHIND, N_NBW_ZERO, N_NBW_FREE_INFLIGHT,
 	N_F_RECV_SHORT, N_F_RECV_EAGAIN, N_F_RECV_EINTR, N_F_RECV_ERR, N_F_SEND_SHORT, N_F_SEND_EAGAIN, N_F_SEND_EINTR,
 	N_F_SEND_ERR, N_F_POLL_EINTR, N_F_POLL_SPUR, N_F_ACCEPT_SOFT, N_F_ALLOC, N_POLLS, N_BLOCKS, N_RUNS, N_REG_FAIL,
-	N_RW_BOTH, N_OVERLAP, N_MANY
+	N_RW_BOTH, N_OVERLAP, N_MANY, N_BINDFAIL
 };
 const char * const engine_counters[] = {
 	"read_requests", "read_completed", "read_eof", "read_error", "write_requests", "write_completed", "write_error",
@@ -49,7 +49,7 @@ const char * const engine_counters[] = {
 	"fault_recv_short", "fault_recv_eagain", "fault_recv_eintr", "fault_recv_hard_error", "fault_send_short",
 	"fault_send_eagain", "fault_send_eintr", "fault_send_hard_error", "fault_poll_eintr", "fault_poll_spurious",
 	"fault_accept_soft_error", "fault_alloc_failed", "polls", "poll_blocked", "events_run_calls", "probe_request_failed_alloc",
-	"probe_read_and_write_outstanding", "probe_overlapping_request_refused", "probe_more_than_16_requests_outstanding", NULL
+	"probe_read_and_write_outstanding", "probe_overlapping_request_refused", "probe_more_than_16_requests_outstanding", "fault_bind_failed", NULL
 };
 
 #define AF_SINCE(before) (simalloc_failed != (before))
@@ -601,6 +601,24 @@ on_socket(void)
 }
 
 static int
+on_bind(struct vsock * vs)
+{
+
+	(void)vs;
+	if (!CN.active || CN.done || CN.cancelled || CN.next_j >= CN.naddr)
+		return (0);
+	if (CN.beh[CN.next_j] == 8) {
+		/* the attempt for this address fails at once (before connect) */
+		CN.concluded[CN.next_j] = 1;
+		CN.cur = -1;
+		CN.next_j++;
+		R->cnt[N_BINDFAIL]++;
+		return (EADDRINUSE);
+	}
+	return (0);
+}
+
+static int
 on_connect(struct vsock * vs, int port, struct vk_connect_answer * a)
 {
 	int j;
@@ -736,7 +754,7 @@ issue_connect(const struct pline * l)
 
 		if (b < 0)
 			b = -b;
-		CN.beh[i] = b % 8;
+		CN.beh[i] = b % 9;
 		CN.delay_us[i] = l->tok[i].n > 1 && l->tok[i].v[1] > 0 ? (uint64_t)l->tok[i].v[1] : 0;
 		snprintf(addr, sizeof(addr), "127.0.0.%d:%d", i + 1, CN.base_port + i);
 		CN.sas[i] = sock_resolve_one(addr, 0);
@@ -752,6 +770,10 @@ issue_connect(const struct pline * l)
 				CN.beh[i] = 2;
 	if (l->nargs > 1 && l->a[1] == 1 && CN.timeo_us == 0)
 		CN.sa_b = sock_resolve_one("127.0.0.99:999", 0);
+	if (CN.sa_b == NULL)
+		for (i = 0; i < CN.naddr; i++)
+			if (CN.beh[i] == 8)
+				CN.beh[i] = 1;
 	CN.cur = -1;
 	CN.active = 1;
 	CN.af0 = simalloc_failed;
@@ -1492,7 +1514,7 @@ engine_gen(struct plan * P, uint64_t seed, struct prng * g)
 
 			l = plan_add(P, "step", "connect", 2, timeo, (int64_t)prng_chance(g, 20));
 			for (a = 0; a < na; a++) {
-				static const int behs[] = { 0, 1, 1, 2, 2, 2, 3, 3, 4, 5, 6, 6, 7 };
+				static const int behs[] = { 0, 1, 1, 2, 2, 2, 3, 3, 4, 5, 6, 6, 7, 8 };
 				int64_t d = prng_chance(g, 50) ? (int64_t)prng_n(g, 3000) : (int64_t)prng_n(g, 400000);
 
 				pline_tok(l, 2, (int64_t)behs[prng_n(g, sizeof(behs) / sizeof(behs[0]))], d);
@@ -1725,6 +1747,7 @@ engine_run(const struct plan * P)
 	vk_on_send = on_send;
 	vk_on_socket = on_socket;
 	vk_on_connect = on_connect;
+	vk_on_bind = on_bind;
 	vk_on_close = on_close;
 	vk_on_deadlock = on_deadlock;
 	CN.cur = -1;
